@@ -865,11 +865,11 @@ fn canonical_mesh(o: &MeshObs) -> Option<String> {
     }
     covered.sort();
     let patches: BTreeSet<BTreeSet<usize>> = p.iter().map(|x| x.iter().copied().collect()).collect();
-    let loops: Option<BTreeSet<Vec<u32>>> = if o.mesh.simple_boundary_cycles().is_some() {
-        Some(e.loops.iter().map(|c| canonical_cycle(open_cycle(c))).collect())
-    } else {
-        None
-    };
+    // The loops themselves, as cyclic sequences up to rotation and direction. Where faces touch
+    // only at a vertex several decompositions of the boundary into closed loops are legitimate,
+    // and the model accepts any of them - but "the same answer whatever the hash-iteration order"
+    // still means that the decomposition may not change with the order.
+    let loops: BTreeSet<Vec<u32>> = e.loops.iter().map(|c| canonical_cycle(open_cycle(c))).collect();
     Some(format!("{:?}|{:?}|{:?}|{:?}", edges, covered, patches, loops))
 }
 
